@@ -9,6 +9,7 @@ use std::ops::{Add, Sub};
 use std::cmp::Ordering;
 use std::io;
 use std::sync::Arc;
+use std::borrow::Cow;
 use vstd::std_specs::cmp::{PartialOrdSpec, PartialEqSpec, PartialEqSpecImpl};
 use vstd::std_specs::iter::IteratorSpec;
 use vstd::std_specs::hash::*;
